@@ -52,3 +52,26 @@ package reghttp
 //@   owns resp.client.retryLimit  // configuration, written only by the constructor options
 //@   loop 1 ()
 //@     decreases attempts-bounded: c.retryLimit + 2 - resp.retryCount
+
+// ---- C11: credentials only for the own host, never in clear text to a TLS host ----
+// (3) the credential function a registry host hands to its Auth answers for that host's own
+//     URL host only: a handler created for any other host (redirect target, external layer URL)
+//     gets empty credentials.
+//@ func (*clientHost).AuthCreds$1(h) (cred)
+//@   prop C11
+//@   ensures own-host-only: h != ch.config.Hostname ==> cred == auth.Cred{}
+// (4) Authorization is attached to a request only if it travels over TLS or the host is
+//     configured without TLS (both places that call UpdateRequest: the request loop and the
+//     redirect hook).
+//@ callsite (*~/internal/auth.Auth).UpdateRequest(req)
+//@   prop C11
+//@   name UpdateRequest/request-loop
+//@   in ~/internal/reghttp
+//@   infunc Resp\)\.next
+//@   requires not-in-clear-text-to-a-tls-host: req.URL.Scheme == "https" || caller.h.config.TLS == config.TLSDisabled
+//@ callsite (*~/internal/auth.Auth).UpdateRequest(req)
+//@   prop C11
+//@   name UpdateRequest/redirect
+//@   in ~/internal/reghttp
+//@   infunc checkRedirect
+//@   requires not-in-clear-text-to-a-tls-host: req.URL.Scheme == "https" || caller.ch.config.TLS == config.TLSDisabled
